@@ -108,6 +108,23 @@ def build(rng, tier):
             if macro == "ascent_par": hist[0] += f" par {r5.choice([1, 2, 4])}"
             elif j % 3 == 1: hist = [o.replace("eng run ", "eng runp ") for o in hist]
             cases.append(engcheck.Case(pid, inst, hist, {"inp": inp, "kind": "agg-all-columns-bound-over-input" + ("-par" if macro == "ascent_par" else "")}))
+    # forced shape "all wildcards": `ok(x) <-- item(x), !blocked(_)`, `!pair(_, _)`, `count() in blocked(_)` - an emptiness test looked up in the KEY-LESS index (under ascent_par! the
+    # CRelNoIndex, whose index_get answers Some(empty iterator) for an empty relation), on empty and non-empty relations, serial and parallel
+    aw = {"rels": [{"arity": 1}, {"arity": 1}, {"arity": 2}, {"arity": 1}, {"arity": 1}, {"arity": 1}],
+          "rules": [{"heads": [(3, [("var", 0)])], "body": [("cl", 0, [("v", 0)], []), ("agg", [], "not", [], 1, ["_"])]},
+                    {"heads": [(4, [("var", 0)])], "body": [("cl", 0, [("v", 0)], []), ("agg", [], "not", [], 2, ["_", "_"])]},
+                    {"heads": [(5, [("var", 21)])], "body": [("agg", [21], "count", [], 1, ["_"])]}]}
+    for pid, macro in (("awild", "ascent"), ("awildp", "ascent_par")):
+        progs[pid] = aw
+        mods.append((pid, eng.rs_module(pid, aw, macro=macro)))
+        for j in range(6 if tier == "quick" else 16):
+            r5 = rng.fork(f"awild{j}")
+            inp = {0: [(x,) for x in range(r5.range(1, 4))], 1: [] if j % 2 == 0 else [(r5.below(5),)], 2: [] if j % 4 < 2 else [(r5.below(3), r5.below(3))]}
+            inst = f"{pid}_{j}"
+            hist = engcheck.std_history(inst, pid, inp)
+            if macro == "ascent_par": hist[0] += f" par {r5.choice([1, 2, 4])}"
+            elif j % 3 == 1: hist = [o.replace("eng run ", "eng runp ") for o in hist]
+            cases.append(engcheck.Case(pid, inst, hist, {"inp": inp, "kind": "agg-all-wildcards" + ("-par" if macro == "ascent_par" else "")}))
     # forced shape "nullary and wide aggregated relations": `out(x) <-- a(x), !flag()`, `cnt(n) <-- agg n = count() in flag()` (the aggregated index has the unit key), and
     # count / sum / min over an arity-6 relation with two and with five columns bound
     an = {"rels": [{"arity": 1}, {"arity": 0}, {"arity": 1}, {"arity": 1}, {"arity": 6}, {"arity": 3}, {"arity": 2}],
